@@ -10,6 +10,7 @@ C16 'sliced-injection-into-bounded-array': a node with declared array bounds who
 Only 1-D numeric slices in definitions are used (string slices, slices in modification lines and multi-axis slices are
 recorded C17 defects and stay out of these programs)."""
 import itertools
+import math
 from vt.core import outcome, dev
 from vt.util import close
 
@@ -76,6 +77,130 @@ def run_c14(c, ctx):
             if not (isinstance(d, tuple) and close(d[0], exp, 1e-9, 1e-12) and d[1] == u0):
                 devs.append(dev('zero-not-converted-into-definition-unit', dict(text=text, observed=d, expected=(exp, u0))))
     return outcome(classes=classes, nontrivial=True, fp='e14 ' + text, dev=devs, monitors={'edge_programs': 1}, sample=dict(text=text, expected=exp))
+
+
+# ------------------------------------------------------------------------------------------------ C14, units that are no factors
+# The main C14 model converts with exact rational factors; units with an offset (temperatures) or a logarithm (levels) have none.
+# Closed forms, written here from the definitions of the units (not taken from the library):
+
+TEMP_TO_K = {'K': lambda v: v, 'Cel': lambda v: v + 273.15, 'degF': lambda v: (v + 459.67) * 5.0 / 9.0, 'degR': lambda v: v * 5.0 / 9.0}
+TEMP_FROM_K = {'K': lambda k: k, 'Cel': lambda k: k - 273.15, 'degF': lambda k: k * 9.0 / 5.0 - 459.67, 'degR': lambda k: k * 9.0 / 5.0}
+# (family, unit of the level, linear unit, level -> linear, linear -> level)
+LEVELS = [('power-level', 'dBm', 'W', lambda x: 1e-3 * 10 ** (x / 10.0), lambda w: 10.0 * math.log10(w / 1e-3)),
+          ('power-level', 'dBm', 'mW', lambda x: 10 ** (x / 10.0), lambda w: 10.0 * math.log10(w)),
+          ('power-ratio', 'dB', 'PR', lambda x: 10 ** (x / 10.0), lambda r: 10.0 * math.log10(r)),
+          ('amplitude-ratio', 'dB', 'AR', lambda x: 10 ** (x / 20.0), lambda r: 20.0 * math.log10(r))]
+
+
+def _shape_vals(rng, shape, draw):
+    if shape is None:
+        return draw()
+    if len(shape) == 1:
+        return [draw() for _ in range(shape[0])]
+    return [[draw() for _ in range(shape[1])] for _ in range(shape[0])]
+
+
+def _map(v, f):
+    return [_map(x, f) for x in v] if isinstance(v, list) else f(v)
+
+
+def _lit(v):
+    if isinstance(v, list):
+        return '[' + ','.join(_lit(x) for x in v) + ']'
+    return repr(float(v)) if not float(v).is_integer() or abs(v) >= 1e15 else str(int(v))
+
+
+def gen_c14_nl(rng):
+    shape = rng.choice([None, [2], [3], [4], [2, 2], [2, 3]])
+    fam = rng.choice(['temperature', 'temperature', 'level', 'linear'])
+    nmods = rng.randint(1, 3)
+    if fam == 'temperature':
+        units = ['K', 'Cel', 'degF', 'degR']
+        u0 = rng.choice(units)
+        draw = lambda: rng.choice([0, 10, 20, 25.5, 100, 273.15, 300, 451, 1000, 36.6, 5, 1])
+        mods = [(rng.choice(units + [None]), None) for _ in range(nmods)]
+    elif fam == 'level':
+        _, lv, lin, _, _ = LV = rng.choice(LEVELS)
+        u0 = rng.choice([lv, lin])
+        draw = lambda: rng.choice([1, 2, 3, 10, 20, 0.5, 30, 100, 7])
+        mods = [(rng.choice([lv, lin, None]), None) for _ in range(nmods)]
+        fam = 'level:' + LEVELS[LEVELS.index(LV)][0] + ':' + lv + '/' + lin
+    else:
+        dim = rng.choice(list(LIN))
+        units = [u for u, _ in LIN[dim]]
+        u0 = rng.choice(units)
+        draw = lambda: rng.choice([0, 1, 2, 3.5, 10, 250, 0.25, 7])
+        mods = [(rng.choice(units + [None]), None) for _ in range(nmods)]
+        fam = 'linear:' + dim
+    if all(u in (None, u0) for u, _ in mods):
+        others = [x for x in (units if not fam.startswith('level') else [lv, lin]) if x != u0]
+        mods[-1] = (rng.choice(others), None)
+    v0 = _shape_vals(rng, shape, draw)
+    mods = [(u, _shape_vals(rng, shape, draw)) for u, _ in mods]
+    return dict(edge='c14-nl', fam=fam, shape=shape, u0=u0, v0=v0, mods=mods, grouped=rng.random() < 0.3, typed=rng.random() < 0.25)
+
+
+def _convert_nl(fam, v, u, u0):
+    if u is None or u == u0:
+        return v
+    if fam == 'temperature':
+        return TEMP_FROM_K[u0](TEMP_TO_K[u](v))
+    if fam.startswith('level'):
+        for name, lv, lin, to_lin, to_lv in LEVELS:
+            if fam == 'level:%s:%s/%s' % (name, lv, lin):
+                return to_lin(v) if u == lv else to_lv(v)
+    dim = fam.split(':')[1]
+    f = dict(LIN[dim])
+    return v * f[u] / f[u0]
+
+
+def run_c14_nl(c, ctx):
+    shape, u0 = c['shape'], c['u0']
+    dims = '' if shape is None else '[' + ','.join(str(n) for n in shape) + ']'
+    name = 'grp.node' if c['grouped'] else 'node'
+    L = ['grp'] if c['grouped'] else []
+    ind = '  ' if c['grouped'] else ''
+    L.append('%snode float%s = %s %s' % (ind, dims, _lit(c['v0']), u0))
+    for k, (u, v) in enumerate(c['mods']):
+        last = k == len(c['mods']) - 1
+        L.append('%s%s = %s%s' % (name, (' float' + dims) if (c['typed'] and last) else '', _lit(v), (' ' + u) if u else ''))
+    text = '\n'.join(L) + '\n'
+    u, v = c['mods'][-1]
+    exp = _map(v, lambda x: _convert_nl(c['fam'], float(x), u, u0))
+    kindcls = c['fam'].split(':')[0]
+    classes = ['edge:unit-without-factor', 'edge:nl-' + kindcls, 'edge:nl-' + ('scalar' if shape is None else 'array-%dd' % len(shape))]
+    if u not in (None, u0):
+        classes.append('edge:nl-last-assignment-in-other-unit')
+        if shape is not None and kindcls in ('temperature', 'level'):
+            classes.append('edge:nl-array-converted-through-offset-or-logarithm')
+    devs = []
+    st, res, keep = parse(ctx, text, 'e14n')
+    if st != 'ok':
+        devs.append(dev('legal-modification-rejected(%s)' % kindcls, dict(text=text, exc=repr(res)[:200])))
+    else:
+        from scinumtools.dip.settings import Format
+        d = res.data(Format.TUPLE).get(name)
+        obs = d[0] if isinstance(d, tuple) else None
+        if hasattr(obs, 'tolist'):
+            obs = obs.tolist()
+        ok = isinstance(d, tuple) and d[1] == u0
+        if ok:
+            fo, fe = _flatten(obs), _flatten(exp)
+            ok = len(fo) == len(fe) and all(close(a, b, 1e-7, 1e-7) for a, b in zip(fo, fe))
+        if not ok:
+            devs.append(dev('last-value-not-converted-into-definition-unit(%s,%s)' % (kindcls, 'scalar' if shape is None else 'array'),
+                            dict(text=text, observed=d if not hasattr(d, 'tolist') else d.tolist(), expected=(exp, u0))))
+    return outcome(classes=classes, nontrivial=True, fp='e14n ' + text, dev=devs, monitors={'edge_programs': 1, 'nonfactor_unit_programs': 1},
+                   sample=dict(text=text, expected=[exp, u0]))
+
+
+def _flatten(v):
+    if isinstance(v, (list, tuple)):
+        out = []
+        for x in v:
+            out += _flatten(x)
+        return out
+    return [v]
 
 
 # ------------------------------------------------------------------------------------------------ C16
